@@ -538,12 +538,15 @@ func (c *mergeC) Gen(r *rand.Rand, tier string, emit func(string)) {
 		emit(fmt.Sprintf("mproc %s %s", genAProc(r, false, names, r.Intn(3)), genAProc(r, false, names, r.Intn(3))))
 	}
 	for i := 0; i < nf; i++ {
-		// presence of each process in base / override; dependencies only on processes of the union
-		inB, inO := []bool{}, []bool{}
+		// presence of each process in grand / base / override; dependencies only on processes of the union
+		inA, inB, inO := []bool{}, []bool{}, []bool{}
 		present := []string{}
 		for range names {
-			b, o := r.Intn(3) != 0, r.Intn(3) != 0
-			inB, inO = append(inB, b), append(inO, o)
+			a, b, o := r.Intn(2) == 0, r.Intn(3) != 0, r.Intn(3) != 0
+			if a && !(b || o) {
+				b = true // the union of base and override is the universe of all three
+			}
+			inA, inB, inO = append(inA, a), append(inB, b), append(inO, o)
 		}
 		for j, nm := range names {
 			if inB[j] || inO[j] {
@@ -569,14 +572,6 @@ func (c *mergeC) Gen(r *rand.Rand, tier string, emit func(string)) {
 		}
 		emit(fmt.Sprintf("mfiles %s %s", mk(inB), mk(inO)))
 		if i%2 == 0 {
-			// a chain of three: every process may be present in any of the files
-			inA := []bool{}
-			for j := range names {
-				inA = append(inA, r.Intn(2) == 0)
-				if inA[j] && !(inB[j] || inO[j]) {
-					inB[j] = true // keep the union (and so the dependency targets) unchanged
-				}
-			}
 			emit(fmt.Sprintf("mchain %s %s %s", mk(inA), mk(inB), mk(inO)))
 		}
 	}
